@@ -4,6 +4,7 @@ package main
 // decodes the produced bytes with the harness's own decoder.
 
 import (
+	"strings"
 	"bytes"
 	"encoding/json"
 	"fmt"
@@ -59,6 +60,8 @@ func (l srcLine) text() string {
 	panic("unknown source op " + l.Op)
 }
 
+var asmCases int
+
 func asmCase(src []srcLine, rng *rand.Rand) asmEvent {
 	ev := asmEvent{Ev: "asm", Src: src, Dec: []asmInstr{}}
 	for i, l := range src {
@@ -70,6 +73,19 @@ func asmCase(src []srcLine, rng *rand.Rand) asmEvent {
 		if rng != nil && rng.Intn(6) == 0 {
 			ev.Text += "\n"
 		}
+	}
+	// The assembler is a library: a process assembles many sources, and some of them are rejected.  Every few cases a
+	// source that the assembler refuses half way through an instruction (over-long symbol, bad number, unknown word,
+	// unterminated batch) is assembled FIRST; what was written for this case must still be what comes out.
+	asmCases++
+	if asmCases%3 == 0 {
+		long := strings.Repeat("x", 256)
+		poison := []string{"LOAD " + long + " 0\n", "INCMP " + long + " 1\n", "MOUT " + long + " 0\n", "CATCH " + long + " 8 1\n", "MNEXT " + long + " 11\n",
+			"LOAD foo\n", "CATCH foo bar 1\n", "FROB foo\n", "DOWN foo\n", "MOVE " + long + "\n", "LOAD foo 1 2 3\nHALT\n"}
+		func() {
+			defer func() { recover() }()
+			asm.Parse(poison[(asmCases/3)%len(poison)], bytes.NewBuffer(nil))
+		}()
 	}
 	w := bytes.NewBuffer(nil)
 	func() {
